@@ -214,7 +214,7 @@ def run_case(case):
 def programs(tier, seed):
     quick = tier == 'quick'
     for tag, s in seeds.all_seeds():
-        if tag.startswith(('d8', 'd12', 'd15', 'star_import')):
+        if tag.startswith(('d8', 'd12', 'd15', 'star_import', 'module_reads_its_annotations')):
             continue
         yield 'seed:' + tag, s
     trig = list(triggergen.cases())
@@ -258,7 +258,7 @@ def gen_cases(tier, seed):
 def cross_programs(tier, seed):
     quick = tier == 'quick'
     for tag, s in seeds.all_seeds():
-        if tag.startswith(('d8', 'd12', 'd15', 'star_import')):
+        if tag.startswith(('d8', 'd12', 'd15', 'star_import', 'module_reads_its_annotations')):
             continue
         yield 'seed:' + tag, s
     for tag, s in list(getattr(seeds, 'VERSION_SENSITIVE', [])) + list(getattr(seeds, 'PY2_SEEDS', [])):
